@@ -33,7 +33,7 @@ func (k kind) String() string {
 type val struct {
 	k    kind
 	s    string // kStr: decoded text; kNum: raw literal; kBool: "true"/"false"
-	esc  int    // kStr: serialisation style (0 plain, 1 \uXXXX for non-ASCII, 2 \/ and \u for some ASCII)
+	esc  int    // kStr: serialisation style (0 plain, 1 \uXXXX for non-ASCII, 2 \/ and \u for some ASCII); kObj: style of the keys
 	keys []string
 	kids []*val
 }
@@ -204,7 +204,7 @@ func (v *val) appendJSON(b []byte) []byte {
 			if i > 0 {
 				b = append(b, ',')
 			}
-			b = appendJSONString(b, v.keys[i], 0)
+			b = appendJSONString(b, v.keys[i], v.esc)
 			b = append(b, ':')
 			b = c.appendJSON(b)
 		}
